@@ -109,7 +109,12 @@ def from_process_tree(node: Any) -> Any:
         return kids[0]
     if v in OPS:
         return (v, kids) if len(kids) > 1 else kids[0]
-    raise ValueError(f"operator {v} with {len(kids)} children in an inferred tree")
+    raise NotAGateTree(f"operator {v} with {len(kids)} children in an inferred tree")
+
+
+class NotAGateTree(Exception):
+    """the inferred tree contains an operator that is neither AND, OR, XOR nor a one-child BRANCH / SEQUENCE (e.g. the miner's loop): it is
+    not a gate tree over successor sets, and the diagram generator has no reading for it"""
 
 
 def show(t: Any) -> str:
@@ -126,6 +131,8 @@ def run_case(t: Any) -> dict[str, Any]:
         res = calculate_logic_gates({EventSet(sorted(s)) for s in obs})
         got_tree = from_process_tree(res)
         got = outcomes(got_tree)
+    except NotAGateTree as e:
+        return {"violations": [{"key": "calculate_logic_gates/ensures.and_or_xor_tree", "what": str(e), "case": case}], "exact": False}
     except Exception as e:  # noqa: BLE001
         return {"violations": [{"key": f"calculate_logic_gates/no_raise.{type(e).__name__}", "what": f"{type(e).__name__}: {str(e)[:200]}", "case": case}], "exact": False}
     missing = [sorted(s) for s in obs if s not in got]
@@ -152,6 +159,8 @@ def run_family(fam: Any) -> dict[str, Any]:
         res = calculate_logic_gates({EventSet(sorted(s)) for s in fam})
         got_tree = from_process_tree(res)
         got = outcomes(got_tree)
+    except NotAGateTree as e:
+        return {"violations": [{"key": "calculate_logic_gates/ensures.and_or_xor_tree", "what": str(e), "case": case}], "exact": False}
     except Exception as e:  # noqa: BLE001
         return {"violations": [{"key": f"calculate_logic_gates/no_raise.{type(e).__name__}", "what": f"{type(e).__name__}: {str(e)[:200]}", "case": case}], "exact": False}
     missing = [sorted(s) for s in fam if frozenset(s) not in got]
